@@ -98,9 +98,22 @@ def gen_case(rng, params, idx):
         else:
             pos = [{"n": f"a{j}", "t": _gen_t(rng, names, composite)} for j in range(npos)]
         methods.append({"mid": i, "pos": pos, "kw": [], "prio": rng.choice([0, 0, 0, 1]), "kind": "leaf"})
+    kwflavour = idx % 8 == 5
+    if kwflavour:
+        # value-dependent annotations on keyword-only parameters
+        for m in methods:
+            if rng.random() < 0.7:
+                m["kw"] = [{"n": "k1", "t": rng.choice([["L", 1], ["L", 2, 3], ["D", "int", "even"], ["D", "int", "ge3"], "int", "object"]),
+                            "req": rng.random() < 0.5}]
     spec = {"hier": hier, "methods": methods, "npos": npos, "composite": composite}
     vals = VALUES + [["i", n] for n in names]
-    if npos == 1:
+    if kwflavour:
+        cg = gen.CallGen(spec, vals)
+        calls = [cg.call(rng, p_kw=0.8) for _ in range(60)]
+        for c in calls:
+            c.pop("alt", None)
+            c["pos"] = c["pos"][:npos] if len(c["pos"]) >= npos else cg.args(rng, npos)
+    elif npos == 1:
         calls = [{"pos": [v], "kw": {}} for v in vals]
     else:
         cg = gen.CallGen(spec, vals)
@@ -110,7 +123,7 @@ def gen_case(rng, params, idx):
 
 
 def _modelled(methods):
-    return all(isinstance(p["t"], str) or p["t"][0] in ("D", "L") for m in methods for p in m["pos"])
+    return all(isinstance(p["t"], str) or p["t"][0] in ("D", "L") for m in methods for p in m["pos"] + m.get("kw", []))
 
 
 def check_case(spec, res):
@@ -134,7 +147,9 @@ def check_case(spec, res):
 
     def on_enter(mid, loc):
         m = by[mid]
-        for p in m["pos"]:
+        for p in m["pos"] + m.get("kw", []):
+            if isinstance(loc[p["n"]], Default):
+                continue
             if T.is_valuedep(p["t"]):
                 res.count("dependent_entries_checked")
                 v = loc[p["n"]]
